@@ -64,7 +64,7 @@ func (c Cfg) options(syncFreq time.Duration, rec *Recorder) *store.Options {
 	}
 	o.WithIndexOptions(io)
 	if rec != nil {
-		o.WithAppFactory(rec.Factory)
+		o.WithAppFactory(rec.Factory).WithAppRemoveFunc(rec.Remove)
 	}
 	return o
 }
